@@ -74,7 +74,17 @@ type C07Case struct {
 	// FlipAfter: the container switch had the opposite value while services and handlers were
 	// registered and got its final value afterwards (the setting in force at request time counts).
 	FlipAfter bool `json:"flip_after,omitempty"`
+	// NoFlusher: the writer the container is given implements nothing but http.ResponseWriter
+	// (a Flush requested by a handler or filter then has nobody to go to)
+	NoFlusher bool `json:"no_flusher,omitempty"`
 }
+
+// bareWriter hides every optional interface of the recorder.
+type bareWriter struct{ w http.ResponseWriter }
+
+func (b bareWriter) Header() http.Header         { return b.w.Header() }
+func (b bareWriter) Write(p []byte) (int, error) { return b.w.Write(p) }
+func (b bareWriter) WriteHeader(s int)           { b.w.WriteHeader(s) }
 
 var aePool = []string{"gzip", "deflate", "gzip, deflate", "deflate, gzip", "deflate;q=1, gzip", "gzip;q=0.5", "br", "identity", "x-gzip", "", "*", "GZIP", "br, gzip", "zip", "defl"}
 
@@ -127,6 +137,7 @@ func genC07(t *rapid.T) C07Case {
 	c.ErrChunks = genChunks(t, "err", 2)
 	c.RecChunks = genChunks(t, "rec", 2)
 	c.FlipAfter = rapid.IntRange(0, 3).Draw(t, "flipafter") == 0
+	c.NoFlusher = rapid.IntRange(0, 4).Draw(t, "noflusher") == 0
 	return c
 }
 
@@ -243,10 +254,14 @@ func checkC07(c C07Case) (vs []*Violation) {
 	var panicked interface{}
 	func() {
 		defer func() { panicked = recover() }()
+		var hw http.ResponseWriter = w
+		if c.NoFlusher {
+			hw = bareWriter{w}
+		}
 		if c.Via == harness.ViaServe {
-			ct.ServeHTTP(w, hr)
+			ct.ServeHTTP(hw, hr)
 		} else {
-			ct.Dispatch(w, hr)
+			ct.Dispatch(hw, hr)
 		}
 	}()
 	desc := fmt.Sprintf("provider=%s container=%v route=%q target=%s via=%s Accept-Encoding=%q(present=%v) preset=%q filter=%v panicAfter=%d", c.Provider, c.ContainerOn, c.RouteEnc, c.Target, c.Via, c.AcceptEnc, c.HasAE, c.Preset, c.HasFilter, c.PanicAfter)
